@@ -199,6 +199,19 @@ def run(case, ctx):
     body = (f["cmd_rc"].to_bytes(2, "little") + f["seq"].to_bytes(2, "little")
             + b"".join(a.to_bytes(4, "little") for a in args[:k]) + f["data"])
     want = pack_sdp(f, body)
+    if f["seq"] % 4 == 1:
+        # the application's previous packet was refused: a field that does
+        # not fit its width (what is raised is the encoder's business; that
+        # the next, valid packet is unaffected is not)
+        bad = dict(f)
+        bad[("arg1", "arg2", "arg3", "seq", "cmd_rc")[f["seq"] // 4 % 5]] = \
+            (-1, 1 << 32, -(1 << 31) - 1)[f["seq"] // 20 % 3]
+        if bad["arg1"] is None:
+            bad["arg1"] = -1
+        try:
+            P.SCPPacket(**bad).bytestring
+        except Exception:
+            ctx.hit("previous_encode_refused")
     pkt = P.SCPPacket(**f)
     got = pkt.bytestring
     ctx.hit("encode_compare")
